@@ -7,12 +7,14 @@
    afterwards; waiter numbers distinct) -- stdout chunks cut anywhere, stderr, connection attempts
    succeeding / failing, authentication outcomes, commands acknowledged / rejected, the round trips of
    the config attach (the last stage of _tor_connected, or done by launch() itself) answered / rejected,
-   progress events, the timeout, the exit, when_connected() calls, reactor shutdown, in any order and
+   progress events, the timeout, the exit, when_connected() calls (passive ones, and ones whose
+   callback calls when_connected() again from inside the delivery), reactor shutdown, in any order and
    any number -- the trace of the model satisfies the oracle of Spec/C19.v:
      * no waiter (the launch() result included) fires twice;
      * at the first of {100% on a connection that is authenticated and on which TAKEOWNERSHIP was sent,
        the launch timeout, the process's end} every waiter fires, with success in the first case and
-       failure in the other two; later callers get that same outcome at once; nothing fires otherwise;
+       failure in the other two; a request made by a callback during the delivery gets that same
+       outcome in the same step; later callers get it at once; nothing fires otherwise;
        the one exception: on success the launch() result may be held back while a config attach is in
        flight, and is then delivered by the answer that ends that attach (success if it was accepted,
        failure if it was rejected);
@@ -69,12 +71,13 @@ Print Assumptions C19_temp_dir_kept_while_running.
 Example C19_nonvacuous :
   let cf := {| c_timeout := true; c_userdir := false; c_killerr := true; c_attach := 2 |} in
   let h := [OOut (firstn 10 LISTENER); OOut (skipn 10 LISTENER); OConnOk; OBoot 0 true; OAck 0 true;
-            OWhen 1; OProgress 0 100; OWhen 2; OAck 0 true; OAck 0 true; OAttach true; OAttach true;
+            OWhenR 1 3; OProgress 0 100; OWhenR 2 4; OAck 0 true; OAck 0 true; OAttach true; OAttach true;
             OTimeout; OExit (XCode 0)] in
   wf h = true /\
   run cf h = [[EDir true]; [EDir true]; [EConnecting; EDir true]; [EDir true];
               [ESent 0 w_SETEVENTS_SC; EDir true]; [ESent 0 w_TAKEOWNERSHIP; EDir true]; [EDir true];
-              [EProgress 100; EAttach 0; EFired 1 ROk; EDir true]; [EFired 2 ROk; EDir true];
+              [EProgress 100; EAttach 0; EFired 1 ROk; EFired 3 ROk; EDir true];
+              [EFired 2 ROk; EFired 4 ROk; EDir true];
               [ESent 0 w_RESETCONF; EDir true]; [EDir true]; [EDir true]; [EFired 0 ROk; EDir true];
               [EDir true]; [EDir false]].
 Proof. vm_compute. auto. Qed.
